@@ -32,7 +32,7 @@ CHECKS = {
             'Static, exhaustive over a finite table: the per-pair verdict (including hoisted per-row statements and extracted helper predicates) is evaluated with Python\'s short-circuit order on all 292 feasible valuations of 13 atoms (unassigned, own pair, student-rank order, project/lecturer undersubscribed, same lecturer, worst ranks absent, lecturer-rank order) and equals the SPA-STL blocking formula on each; any valuation on which a comparison with an absent value would be evaluated is reported (the function must always return a boolean); arrays are indexed by and compared with values of their own sort (ID vs index, project vs lecturer); the count/worst helpers are the documented scatter-folds; every pair of every row is examined; get_results prints exactly the returned value under the stability flag.',
             'Preconditions of the property (assignment respects upper quotas, students on acceptable projects) are assumed; M(p) subset of M(l). Trusted: ast.',
             'DESIGN.md section 5 C06 + Appendix B'),
-    'C07': ('symbolic execution-free case analysis of the fold: the loop body of Brute_force_solver.run as an effect tree, stepped abstractly over (valid?, size vs best size, statistic vs stored) with lazily forked cases; decision table of is_valid over order types of (count, lower, upper) x pc; comparator tables; polynomial domination of the initial values; document model of the printed lines',
+    'C07': ('finite abstract interpretation of the fold: the loop body of Brute_force_solver.run as an effect tree, evaluated over the finite domain {previous value, the statistic of this matching} under every case of (valid?, size vs best size, statistic vs stored), cases forked lazily; decision table of is_valid over order types of (count, lower, upper) x pc; comparator tables; polynomial domination of the initial values; document model of the printed lines',
             'Part: decides the FOLD, not the search. The enumeration cannot be run statically, but its correctness argument is an induction whose step is in the shape of the code: the search space is {0..P}^n; is_valid equals the definition of a valid matching incl. the closure rule on every order type of (count, lower quota, upper quota) x pc and never touches an absent pair; for each of the nine printed accumulators one abstract step (thousands of lazily forked case paths, statement order / helper extraction / elif / early continue independent) yields exactly: the larger size; on a larger size the statistic of this matching; on equal size the better of stored and new; and for the all-matchings tier the better of stored and new regardless of size; the comparators are the strict lexicographic orders from the worst / best rank; initial values of the all-matchings tier are neutral for every instance shape (polynomial domination, not the value of the possibly invalid empty matching) and profiles have max-rank entries (found D6); Infeasible iff the negative size sentinel survives. With C11.R1 (the statistic helpers compute what their labels say) this is the whole induction.',
             'NOT decided: run time/termination on large instances; agreement with the LP solver is a consequence of C02/C03, not checked here. Trusted: ast, A1; itertools.product enumerates the full power.',
             'DESIGN.md section 5 C07'),
